@@ -17,7 +17,7 @@ PROPS = ["C04", "C11"]
 MANIFEST = {
     "C04": dict(
         technique="Lean 4 proof by structural induction over argument values and argument lists (size pass = encode length, cache-index alignment, decode∘encode = documented view, framing, sanitiser) and over histories of logged / dropped statements on one thread's size cache; extraction of the container table / frame / predicate / position of the cache clear(); differential correspondence on ~70 compile-time shapes; call-site fmt oracle through the real LOG_* → backend path, including statements logged after statements that a full dropping queue dropped (or an over-the-maximum record rejected) between the two passes",
-        text="Machine-checked proof (Lean 4), for every argument value built from arithmetic/enum/pointer objects, C strings incl. null, char[N] with or without terminator, std::string/string_view with arbitrary bytes, every quill/std container (with the arithmetic shortcuts and forward_list's cached count), optional, pair, tuple, deferred-format POD and aligned non-POD, direct-format, StringRef and filesystem path, nested arbitrarily, and for every argument list, prior size-cache content/capacity and buffer address: the size pass reserves exactly the bytes the encode pass writes; the encode pass reads exactly the cache entries the size pass pushed, in order (empty optionals, shortcuts that push nothing, more than 12 entries after heap growth); decoding the written bytes at the statement's static shape consumes exactly those bytes and yields the documented value (C string cut at the first NUL, char[N] cut at NUL or N, std::string all bytes, null pointer ↦ empty), so the value seen by the backend is a function of the record alone (deep copy); header + arguments + optional 1-byte dynamic level: reserved = written = consumed; all of this after ANY history of earlier statements of the thread, each logged or dropped/rejected between the size pass and the encode pass (C04_drop_leaves_nothing: the size pass clears the cache at its start and the encode pass only reads it, so a dropped statement leaves nothing behind; the other placement of the clear() is refuted by a concrete witness); every statement is formatted from ITS OWN decoded arguments only (C04_store_per_statement: the backend's single DynamicFormatArgStore is cleared by the stored decoder before every statement whatever its argument count, so after any history of records of any threads and loggers the store — hence the text and the number of error reports, for every fmt — is a function of the statement's own bytes; for a zero-argument statement it is empty and the sanitiser is off; the variant that skips the reset for empty argument packs is refuted by a concrete witness; obligation codec_store_reset); the sanitiser replaces exactly the bytes failing the printable predicate by \\xHH and is the identity otherwise. PARTIAL: libfmt is not modelled — 'text equals call-site formatting' is proved only up to 'fmt is a function of (format string, decoded values)' (C04_text_partial); that last step is tested by the harness oracle (fmtquill::format at the call site before the call vs the sink message after the arguments were overwritten and destroyed, every macro family). Tied to the code by extraction (inline capacity, header formula, dynamic-level accounting, per-container prefix/shortcut/predicate table, clearing rule and WHERE the clear() sits / const-ness of the cache in detail::encode, printable predicate, escape format) with re-proved obligations, and by differential execution of the real Codec<T>::compute_encoded_size/encode/decode_arg, detail::encode/decode_and_store_args and the real macros against the model (size, cache content and capacity, cache index, hex of the bytes, bytes consumed, decoded view, queue bytes reserved/consumed; harness part 7: BoundedDropping 16 KiB queue on the main thread and UnboundedDropping queue with a 16 KiB maximum on a helper thread, filled until they refuse, one or two statements with cached-length arguments dropped — or rejected by QuillError for exceeding the maximum — by the real log_statement, queue drained, next statement compared with call-site formatting; stream `seq`: a statement with arguments followed by zero-argument statements whose format string has 0/1/2 placeholders or a literal tab, on the same logger / another logger / another thread, polled one by one or together — oracle: call-site fmtquill text, or when that throws the documented error text with the call-site what() plus exactly one notifier report; the number of values in the backend's store at format time is compared with the model).",
+        text="Machine-checked proof (Lean 4), for every argument value built from arithmetic/enum/pointer objects, C strings incl. null, char[N] with or without terminator, std::string/string_view with arbitrary bytes, every quill/std container (with the arithmetic shortcuts and forward_list's cached count), optional, pair, tuple, deferred-format POD and aligned non-POD, direct-format, StringRef and filesystem path, nested arbitrarily, and for every argument list, prior size-cache content/capacity and buffer address: the size pass reserves exactly the bytes the encode pass writes; the encode pass reads exactly the cache entries the size pass pushed, in order (empty optionals, shortcuts that push nothing, more than 12 entries after heap growth); decoding the written bytes at the statement's static shape consumes exactly those bytes and yields the documented value (C string cut at the first NUL, char[N] cut at NUL or N, std::string all bytes, null pointer ↦ empty), so the value seen by the backend is a function of the record alone (deep copy); header + arguments + optional 1-byte dynamic level: reserved = written = consumed; all of this after ANY history of earlier statements of the thread, each logged or dropped/rejected between the size pass and the encode pass (C04_drop_leaves_nothing: the size pass clears the cache at its start and the encode pass only reads it, so a dropped statement leaves nothing behind; the other placement of the clear() is refuted by a concrete witness); every statement is formatted from ITS OWN decoded arguments only (C04_store_per_statement: the backend's single DynamicFormatArgStore is cleared by the stored decoder before every statement whatever its argument count, so after any history of records of any threads and loggers the store — hence the text and the number of error reports, for every fmt — is a function of the statement's own bytes; for a zero-argument statement it is empty and the sanitiser is off; the variant that skips the reset for empty argument packs is refuted by a concrete witness; obligation codec_store_reset); a std::set / std::multiset is seen by the backend in the order it was encoded = the iteration order of ITS comparator (C04_set_view_in_encode_order; obligation codec_set_order: decode_arg rebuilds it with the rebound comparator; a re-sorting decode is refuted by a witness); for EVERY user supplied check_printable_char predicate (C04_sanitize_any_predicate, the extracted default being one instance; obligation codec_sanitize_every_byte: both loops ask the predicate about every byte; a detection loop that shortcuts printable ASCII is refuted by a witness) the sanitiser replaces exactly the bytes failing the printable predicate by \\xHH and is the identity otherwise. PARTIAL: libfmt is not modelled — 'text equals call-site formatting' is proved only up to 'fmt is a function of (format string, decoded values)' (C04_text_partial); that last step is tested by the harness oracle (fmtquill::format at the call site before the call vs the sink message after the arguments were overwritten and destroyed, every macro family). Tied to the code by extraction (inline capacity, header formula, dynamic-level accounting, per-container prefix/shortcut/predicate table, clearing rule and WHERE the clear() sits / const-ness of the cache in detail::encode, printable predicate, escape format) with re-proved obligations, and by differential execution of the real Codec<T>::compute_encoded_size/encode/decode_arg, detail::encode/decode_and_store_args and the real macros against the model (size, cache content and capacity, cache index, hex of the bytes, bytes consumed, decoded view, queue bytes reserved/consumed; harness part 7: BoundedDropping 16 KiB queue on the main thread and UnboundedDropping queue with a 16 KiB maximum on a helper thread, filled until they refuse, one or two statements with cached-length arguments dropped — or rejected by QuillError for exceeding the maximum — by the real log_statement, queue drained, next statement compared with call-site formatting; stream `seq`: a statement with arguments followed by zero-argument statements whose format string has 0/1/2 placeholders or a literal tab, on the same logger / another logger / another thread, polled one by one or together — oracle: call-site fmtquill text, or when that throws the documented error text with the call-site what() plus exactly one notifier report; the number of values in the backend's store at format time is compared with the model; shapes with non-default comparators — set<int,greater>, multiset<double,greater<>>, user comparators on int / std::string / char const* keys, nested in vector / optional / pair — whose oracle keeps the source's iteration order; the sanitiser function, the e2e stream and the named-argument values also under two non-default predicates, one stricter inside printable ASCII (rejects | \" %) and one laxer (accepts tab and bytes >= 0x80), with messages whose rejected bytes are none / printable ASCII only / mixed, the reference sanitiser taking the same predicate).",
         note="partial: fmt itself is a parameter of the theorem; wide strings (Windows only) excluded; values the C++ truncates (strings ≥ 2^32−2 bytes, containers ≥ 2^32 elements) are outside `wf`; alignof is assumed to be a power of two.",
         ref="§5 C04, §4.2"),
     "C11": dict(
@@ -34,7 +34,10 @@ THEOREMS = {
             "Codec.C04_drop_leaves_nothing", "Codec.C04_framing_after_drops", "Codec.C04_clear_position_matters",
             "Codec.C04_store_per_statement", "Codec.C04_store_reset_skipped_leaks",
             "Obligations.codec_store_reset", "Obligations.C04_store_extracted",
+            "Codec.C04_sanitize_any_predicate", "Codec.C04_sanitize_shortcut_misses",
             "Codec.C04_sanitize_spec", "Codec.C04_sanitize_id", "Codec.C04_sanitize_length", "Codec.C04_text_partial",
+            "Codec.C04_set_view_in_encode_order", "Codec.C04_resorting_decode_differs",
+            "Obligations.codec_sanitize_every_byte", "Obligations.codec_set_order",
             "Codec.sizePass_spec", "Codec.encode_spec", "Codec.encode_short", "Codec.decode_spec",
             "Obligations.codec_extraction_complete", "Obligations.codec_cache_elem", "Obligations.codec_kinds_ok",
             "Obligations.codec_kind_names", "Obligations.codec_fast_traits", "Obligations.codec_framing_consistent",
@@ -181,7 +184,11 @@ def run_c04(ck, tier):
         shape = None
         if m:
             cl = case_line_of(text, m.group(1))
-            if cl:
+            if cl and cl.split()[2] == "san":
+                # sanitiser cases carry no shape name on the case line: the oracle line names the stream
+                m3 = re.search(r"case=\d+ (pp-\S+)", offending_line)
+                shape = m3.group(1) if m3 else "san"
+            elif cl:
                 shape = shape_of_case(cl)
         if not shape:
             m2 = re.search(r"case=\d+ (\S+)", offending_line)
